@@ -120,6 +120,13 @@ def run(case: dict, ctx) -> dict:
         kinds = [rng.choice(alphabet) if rng.random() < 0.2 else "U" for _ in range(ncl)]
     else:
         kinds = [rng.choice(alphabet) for _ in range(ncl)]
+    shared = 0
+    if isinstance(kinds, list) and not external and rng.random() < 0.2:
+        # guest clusters that share one host cluster with their predecessor (identical L2 entries, reference count 2)
+        for g_ in range(1, len(kinds)):
+            if kinds[g_ - 1] in ("N", "=") and kinds[g_] in ("N", "U") and rng.random() < 0.3:
+                kinds[g_] = "="
+                shared += 1
     view = w.make_view(rng, size=size, cluster_bits=cb, kinds=kinds, extl2=ext, tag=rng.getrandbits(48))
     # extensions
     exts = []
@@ -184,7 +191,10 @@ def run(case: dict, ctx) -> dict:
         placement=case["placement"] if mode >= 0.15 else rng.choice(["seq", "seq", "runs"]),
         far_base=(rng.choice([1 << 32, (1 << 32) + (1 << 20), 1 << 40, 1 << 45]) if far else 0), far_frac=0.6 if far else 0.0,
         l1_extra=rng.choice([0, 0, 1, 5]), drop_empty_l2=True, level=rng.choice([1, 6, 9]),
+        # some compressed clusters carry all their data but no final deflate block (written with a sync flush)
+        sync_flush_frac=rng.choice([0.0, 0.0, 0.3]),
     )
+    res["cnt"]["clusters_sharing_a_host_cluster"] = shared
     model = Model(size, layers)
     if len(layers) == 1 and not external and img.end <= (8 << 20) and case["i"] % 3 == 0:
         from vf.diskcheck import triangulate
